@@ -440,7 +440,13 @@ OPNMIDI_EXPORT void opn2_setLoopHooksOnly(OPN2_MIDIPlayer *device, int loopHooks
         return;
     MidiPlayer *play = GET_MIDI_PLAYER(device);
     assert(play);
-    play->m_sequencer->setLoopHooksOnly(loopHooksOnly);
+    play->m_setup.loopHooksOnly = (loopHooksOnly != 0);
+#ifdef OPNMIDI_MIDI2VGM
+    // The VGM dumper needs the song to stop at the loop end as long as it is in use
+    play->m_sequencer->setLoopHooksOnly(play->m_setup.loopHooksOnly || play->m_synth->m_loopStartHook != NULL);
+#else
+    play->m_sequencer->setLoopHooksOnly(play->m_setup.loopHooksOnly);
+#endif
 #else
     ADL_UNUSED(device);
     ADL_UNUSED(loopHooksOnly);
